@@ -5,6 +5,9 @@ RR = 'read::relocate::RelocateReader'
 RELOCATING = {'read_address': 'relocate_address', 'read_offset': 'relocate_offset', 'read_sized_offset': 'relocate_offset'}
 
 
+from .facts import MissingAnchor
+
+
 def _fields_touched(fn, adt_path):
     """fields of values of type adt (self or other parameters) that the body projects"""
     g = fn.facts
@@ -42,6 +45,8 @@ def run_relocate_reader(rep, g, rule_deleg='R2-deleg', rule_over='R2'):
     methods = {f.name: f for f in g.fns.values() if f.impl_self_adt == RR and f.impl_trait == 'read::reader::Reader' and f.kind == 'AssocFn'}
     rep.floor(rule_deleg, 'Reader methods implemented by RelocateReader', len(methods), 15)
     trait = g.traits.get('read::reader::Reader')
+    if trait is None:
+        raise MissingAnchor('trait read::reader::Reader is not compiled in this configuration')
     required_defaults = {it['name'] for it in trait['items'] if it['kind'] == 'Fn' and it['has_default']}
     for name, fn in sorted(methods.items()):
         loc = fn.loc()
@@ -81,6 +86,10 @@ def run_relocate_reader(rep, g, rule_deleg='R2-deleg', rule_over='R2'):
                       why='clone + truncate(len) + skip(len)')
             continue
         # pure delegation
+        if fn.argc == 0:
+            # an associated function without a receiver cannot read through the wrapper (the `cannot_implement` sealing marker of read-core)
+            rep.ok(rule_deleg, 'delegate|' + name, 'no receiver: nothing to delegate', loc, why='not a reading method', nontrivial=False)
+            continue
         same = [t for bi, t in reader_calls if t['f']['name'] == name]
         other_reader = [t for bi, t in reader_calls if t['f']['name'] != name]
         bad_fields = sorted({fld for (l, fld) in touched if fld != 'reader'})
@@ -109,6 +118,8 @@ def run_relocate_writer(rep, g, rule='R4'):
              'each records a Relocation and then writes a placeholder through the same-width primitive')
     impl_fns = {f.name: f for f in g.fns.values() if f.kind == 'AssocFn' and f.impl_trait == 'write::writer::Writer'
                 and f.path.startswith('write::relocate::')}
+    if 'write::writer::Writer' not in g.traits:
+        raise MissingAnchor('trait write::writer::Writer is not compiled in this configuration')
     want = {'write_address', 'write_offset', 'write_offset_at', 'write_eh_pointer'}
     base = {'endian', 'len', 'write', 'write_at'}
     got = set(impl_fns)
